@@ -16,10 +16,8 @@ package main
 import (
 	"fmt"
 	"os"
-	"regexp"
 	"runtime/debug"
 	"sort"
-	"strconv"
 	"strings"
 	"time"
 
@@ -164,11 +162,7 @@ func checkOne(tc tcase) (res tresult) {
 		n2 := sxNorm(tree2(), nil).String()
 		if n1 != n2 {
 			a, b := firstDiff(n2, n1)
-			finding := ""
-			if f1, f2 := sxNorm(sxRegexNewlines(tree1()), nil).String(), sxNorm(sxRegexNewlines(tree2()), nil).String(); f1 == f2 {
-				finding = "G20-2"
-			}
-			res.fail = &vh.Failure{Kind: "oracle", Finding: finding, What: "printed form parses to a different tree", Case: caseOf(map[string]string{"printed": t1, "printed_hex": vh.HxS(t1)}), Got: "…" + a, Want: "…" + b}
+			res.fail = &vh.Failure{Kind: "oracle", What: "printed form parses to a different tree", Case: caseOf(map[string]string{"printed": t1, "printed_hex": vh.HxS(t1)}), Got: "…" + a, Want: "…" + b}
 			return
 		}
 	}
@@ -191,11 +185,7 @@ func checkOne(tc tcase) (res tresult) {
 	}
 	if t2 != t1 {
 		a, b := firstDiff(t2, t1)
-		finding := ""
-		if isG20_1(t1, t2) {
-			finding = "G20-1"
-		}
-		res.fail = &vh.Failure{Kind: "oracle", Finding: finding, What: "String() is not idempotent: printing the re-parsed program gives another text", Case: caseOf(map[string]string{"printed": t1, "printed_hex": vh.HxS(t1), "printed_again": t2}), Got: "…" + a, Want: "…" + b}
+		res.fail = &vh.Failure{Kind: "oracle", What: "String() is not idempotent: printing the re-parsed program gives another text", Case: caseOf(map[string]string{"printed": t1, "printed_hex": vh.HxS(t1), "printed_again": t2}), Got: "…" + a, Want: "…" + b}
 		return
 	}
 	return
@@ -217,41 +207,6 @@ func dumpKinds(d string) map[string]int {
 		}
 	}
 	return kinds
-}
-
-var expNumRe = regexp.MustCompile(`[0-9](\.[0-9]+)?e\+[0-9]+`)
-
-// isG20_1 is the class predicate of finding G20-1: the only differences between the first printed text t1 and the
-// second one t2 are numeric literals that t1 shows in exponent form ("1e+06", "1.23457e+06": the %.6g text of a
-// non-integer literal, or of one beyond int64) and that denote an integer below 2^63, which t2 therefore shows with
-// plain digits ("1000000", "1234570"). Any other difference is not in the class.
-func isG20_1(t1, t2 string) bool {
-	cur := t1
-	for iter := 0; iter < 10000; iter++ {
-		if cur == t2 {
-			return iter > 0
-		}
-		i := 0
-		for i < len(cur) && i < len(t2) && cur[i] == t2[i] {
-			i++
-		}
-		found := false
-		for _, m := range expNumRe.FindAllStringIndex(cur, -1) {
-			if m[0] <= i && i <= m[1] {
-				v, err := strconv.ParseFloat(cur[m[0]:m[1]], 64)
-				if err != nil || v >= 9223372036854775808.0 || v != float64(int64(v)) {
-					return false
-				}
-				cur = cur[:m[0]] + strconv.FormatInt(int64(v), 10) + cur[m[1]:]
-				found = true
-				break
-			}
-		}
-		if !found {
-			return false
-		}
-	}
-	return false
 }
 
 // runner accumulates cases, de-duplicates them, checks them in parallel and reports in generation order.
